@@ -13,6 +13,8 @@
 (*   [ev |-> "reset", mode, reqs]                 a new channel            *)
 (*   [ev |-> "in", via, id, dmg, seq, req, kind, msg, part]                *)
 (*   [ev |-> "acc", seq, req, kind]               chunk accepted           *)
+(*   [ev |-> "renew", seq]                        token renewal: the OPN   *)
+(*                                                chunk took number seq    *)
 (*   [ev |-> "ret", err, msg]                     Receive returned: error, *)
 (*                                                or message msg (0: some  *)
 (*                                                other content)           *)
@@ -83,13 +85,18 @@ TObs == /\ More /\ Log[l].ev \in {"acc", "ret"}
         /\ pend' = Tail(pend) /\ l' = l + 1
         /\ UNCHANGED <<tr, mode>> /\ Keep
 
-TNext == TReset \/ TIn \/ TObs
+\* the OPN chunk of a renewal: the receiver's sequence state moves to its number
+TRenew == /\ More /\ Log[l].ev = "renew"
+          /\ tr' = [tr EXCEPT !.lastSeq = IF SeqFollows(@, Log[l].seq) THEN Log[l].seq ELSE @]
+          /\ l' = l + 1 /\ UNCHANGED <<pend, mode>> /\ Keep
+
+TNext == TReset \/ TIn \/ TObs \/ TRenew
 TSpec == TInit /\ [][TNext]_<<tvars, vars>>
 
 \* the receiver invariants, on the state driven by the recorded inputs
 TInvNoReplay ==
   /\ \A i, j \in 1..Len(tr.accepted) : i # j => tr.accepted[i].id # tr.accepted[j].id
-  /\ \A i \in 1..Len(tr.accepted) - 1 : SeqFollows(tr.accepted[i].seq, tr.accepted[i + 1].seq)
+  /\ \A i \in 1..Len(tr.accepted) - 1 : tr.accepted[i + 1].seq - tr.accepted[i].seq > 0
 TInvIntegrity == \A i \in 1..Len(tr.accepted) : tr.accepted[i].dmg = "none"
 
 \* accepted iff the whole log was consumed and nothing expected is outstanding
